@@ -17,7 +17,8 @@ Oracles (all written from the property statement, none calls the code being judg
     (checks.c08.judge_rotation), shares no node with any other assembly and has its own name / number;
   * counts, getMass(nuclide), getVolume and the total of every volume-integrated block parameter are 3x a reference taken
     from the third-core state (armi's own third-core getters where no edge assemblies are present, and a naive leaf walk
-    that weights the centre once and every other non-edge assembly three times);
+    that weights the centre once and every other non-edge assembly three times); for a third core that carries its edge
+    assemblies getMass / getVolume of that state x3 are compared as well (both halves cut by the symmetry lines);
   * obs(core) after restorePreviousGeometry / after add-edge -> remove-edge equals the reference observation of the last
     edge-free third-core state (patched with the harness' own parameter assignments made since).
   * ambient: after every Core.add / Core.removeAssembly (also the ones armi performs itself while building and converting)
@@ -32,9 +33,9 @@ from checks.c08 import judge_rotation, rot
 PROP = "C13"
 LEVEL = "exploration"
 RULE = (
-    "third-core hex reactors from generated blueprints: rings 2-5 (quick) / 2-7 (thorough), 1-3 assembly designs of 1-3 pin-type blocks, "
+    "third-core hex reactors from generated blueprints (flats-up, 25 % corners-up): rings 2-5 (quick) / 2-7 (thorough), 1-3 assembly designs of 1-3 pin-type blocks, "
     "hole probability in {0,.15,.35}, policy for the 0-degree symmetry line in {as generated, none, all, ring-3 cell missing, only ring-3 cell}, "
-    "centre assembly absent in ~5 % of the cores; parameters of every location class assigned to random subsets of blocks before and between "
+    "centre assembly absent in ~5 % of the cores, zones defined on 30 %; parameters of every location class assigned to random subsets of blocks before and between "
     "conversions; 4-9 operations per core drawn from {convert(new changer | re-used changer | Core.growToFullCore), restorePreviousGeometry, "
     "addEdgeAssemblies(new | re-used changer), removeEdgeAssemblies(adding changer | new changer), assign, composition edit, documented no-ops}. "
     "A case = one operation on one core followed by its oracle; distinct = (operation, state before, rings, line policy, centre present, "
@@ -800,7 +801,6 @@ class Case:
         self.T_idle = []           # changers that converted and restored (or never converted)
         self.E_all = []            # every edge changer used: (changer, says_it_added)
         self.kinds_since = set()
-        self.pre_convert = None
         self.ref = None            # observation of the last edge-free third-core state (+ own assignments)
         self.ref_derived = None
         self.added_by_convert = 0
@@ -1006,7 +1006,6 @@ class Case:
         rec, core = self.rec, self.core
         vi = set(vi_names(core))
         byid = {id(a): a for a in core}
-        centre_scaled_ok = True
         bnames = boundary_names(core.getFirstBlock())
         for cell, ent in sorted(post_obs["assems"].items()):
             if "DUPLICATE" in ent:
@@ -1090,7 +1089,6 @@ class Case:
             src_obj = next((a for a in core if ij(a) == scell), None)
             if src_obj is not None and not rc(a_new.getMass(), src_obj.getMass(), TOLERANCES["copy_mass_rel"]):
                 rec.violation("convert/copy-differs/mass", "copy in %s weighs %r, its source %r" % (cell, a_new.getMass(), src_obj.getMass()), w)
-        return centre_scaled_ok
 
     @staticmethod
     def names_before_convert(pre_obs):
@@ -1219,8 +1217,7 @@ class Case:
             # observed, not judged: zones are not among the things the property calls the state of the core
             self.rec.skip("observation: after restorePreviousGeometry core.zones still lists the locations of the removed assemblies (zones are outside the property's state)")
         if self.ref is not None:
-            note = None
-            self.judge_same(self.ref, self.observe(), "restore", "restore.obs", centre_scaled=True, note=note)
+            self.judge_same(self.ref, self.observe(), "restore", "restore.obs", centre_scaled=True)
             if self.ref_derived is not None:
                 self.judge_derived("restore")
         if self.state() == "third":
